@@ -1,11 +1,65 @@
 package stack
 
 import (
+	"context"
+	"encoding/json"
 	"sort"
 
+	"go.amzn.com/lambda/appctx"
 	"go.amzn.com/lambda/interop"
+	"go.amzn.com/lambda/telemetry"
 	"verifharness/rec"
 )
+
+// recTracer is the tracer given to the sandbox: at the end of every invocation it records what the emulator would
+// hand to the X-Ray segment as the error cause (the trace data stored by the error handlers of the Runtime API):
+// absent, or its size and whether it is a JSON object made of the recognised fields only (property C20).
+type recTracer struct {
+	telemetry.NoOpTracer
+	r *rec.Recorder
+}
+
+func (t *recTracer) WithErrorCause(ctx context.Context, appCtx appctx.ApplicationContext, fn func(ctx context.Context) error) func(ctx context.Context) error {
+	return func(ctx context.Context) error {
+		err := fn(ctx)
+		td := appctx.LoadInvokeErrorTraceData(appCtx)
+		class, size := "none", 0
+		if td != nil && len(td.ErrorCause) > 0 {
+			size = len(td.ErrorCause)
+			class = CauseClass(td.ErrorCause)
+		}
+		t.r.Emit("plat", "TraceCause", "class", class, "size", size)
+		return err
+	}
+}
+
+// CauseClass: "bounded" = valid JSON of at most 64 KiB that is an object with recognised fields only and at least one
+// of them; otherwise what is wrong with it.
+func CauseClass(b []byte) string {
+	if !json.Valid(b) {
+		return "bad:invalid-json"
+	}
+	if len(b) > 64*1024 {
+		return "bad:too-large"
+	}
+	var m map[string]json.RawMessage
+	if json.Unmarshal(b, &m) != nil {
+		return "bad:not-an-object"
+	}
+	known := 0
+	for k := range m {
+		switch k {
+		case "exceptions", "working_directory", "paths", "message":
+			known++
+		default:
+			return "bad:unrecognised-field"
+		}
+	}
+	if known == 0 {
+		return "bad:no-recognised-field"
+	}
+	return "bounded"
+}
 
 // telRecorder is the EventsAPI given to the sandbox: platform lifecycle events
 // become events of the same trace as the actors' events (property C15).
@@ -53,10 +107,10 @@ func (t *telRecorder) SendExtensionInit(d interop.ExtensionInitData) error {
 	t.r.Emit("plat", "Tel", "kind", "ExtensionInit", "name", d.AgentName, "state", d.State, "errType", d.ErrorType, "subs", subs)
 	return nil
 }
-func (t *telRecorder) SendReportSpan(interop.Span) error { return nil }
+func (t *telRecorder) SendReportSpan(interop.Span) error   { return nil }
 func (t *telRecorder) SendReport(interop.ReportData) error { return nil }
-func (t *telRecorder) SendEnd(interop.EndData) error     { return nil }
-func (t *telRecorder) SendFault(interop.FaultData) error { return nil }
+func (t *telRecorder) SendEnd(interop.EndData) error       { return nil }
+func (t *telRecorder) SendFault(interop.FaultData) error   { return nil }
 func (t *telRecorder) SendImageErrorLog(interop.ImageErrorLogData) {
 	t.r.Emit("plat", "Tel", "kind", "ImageErrorLog")
 }
